@@ -18,7 +18,7 @@ CLAIMED = {
          "Only the 'never crashes, never runs away' corners of the string and table functions for extreme positions, counts and ranges. Two structural conditions on what they compute: no function decodes a Lua string as UTF-8, and a position found in x[lo:] has lo added back. What the functions compute otherwise (the sequence and byte-string laws) is value-level and not decided.",
          "Trusted: as for C04 and C05. Not decided: results of sub/byte/rep/find/insert/remove/move/concat/unpack/sort for every argument tuple.",
          "DESIGN.md 10.2 (C19), 10.3 (R-BYTES, R-REBASE), 6"),
- "C15": ("switch exhaustiveness against the constants the pattern compiler emits; panic-instruction and dropped-error scan over the call closure of pattern.New; must-pass-through reachability on the CFG of find/match/gmatch/gsub (successful return only behind pattern.New, exemptions by branch-condition class); budget plumbing and cursor-writer sub-rules of the metering analysis",
+ "C15": ("switch exhaustiveness against the constants the pattern compiler emits; panic-instruction and dropped-error scan over the call closure of pattern.New; must-pass-through reachability on the CFG of find/match/gmatch/gsub (successful return only behind pattern.New, exemptions by branch-condition class); budget plumbing and cursor-writer sub-rules of the metering analysis; scan for inclusive loops over counters of 8-32 bits whose bound can be the type's maximum (wrap-around, an unmetered hang)",
          "Structural part only: item-type exhaustiveness, no panic and no dropped error in the pattern compiler, no unlisted shortcut around the compiler, matcher budget fed from and charged to the quota. The match semantics (pattern x subject) are value-level and not decided.",
          "Trusted: go/ssa; exemption table confirmed against the manual. Not decided: what the matcher returns.",
          "DESIGN.md 3 (R-SIBLING pattern part, R-METER c), 4 (C15)"),
